@@ -1,4 +1,5 @@
 //! vh — runtime-monitoring harness for oxidize-pdf (see /verif/DESIGN.md).
+pub mod dump;
 pub mod gen;
 pub mod mon;
 pub mod rec;
